@@ -119,7 +119,7 @@ def run(ctx):
         "evaluations": g["evaluations"],
         "distinct_nontrivial": g["distinct_nontrivial"],
         "rule": "abstract cases = every initial state of Handshake (Scope=agree): {bypass user u1, database user u2} x method-name length {1,11,12} x "
-                "4 encryption methods x sid {0, 0x01020304, 0xffffffff} x unordered flag x 3 signatures x {direct, cdn} x sni {fixed, 'random'} x stamp "
+                "4 encryption methods x sid {0, 0x01020304, 0xffffffff} x unordered flag x 3 signatures x {direct, cdn} x sni {fixed, 'random', address literal (no server_name extension)} x stamp "
                 "offset strictly inside the window {-1, 0, +1 tick = -179 s / -(180 s - 1 ns) / -(180 s - 1 ms), ~0, +179 s ...}, plus the admin user on "
                 "4 encryption methods x 3 sids x 2 transports x 3 offsets; each case is run with fresh ephemeral keys, nonces, uTLS extension orders, "
                 "spellings of the option values, server names and NumConn: chrome/direct (shuffled extensions) %s times (at least %s done), the fixed "
